@@ -21,7 +21,7 @@ func init() { register("C04/linalg", checkC04) }
 
 func genC04(t *rapid.T) C04Case {
 	op := rapid.SampledFrom([]string{"matmul", "matmul", "dot", "transpose"}).Draw(t, "op")
-	cfg := prog.SingleCfg{MaxRank: 6, MaxDim: 4, MaxElems: 400, Expand: true}
+	cfg := prog.SingleCfg{MaxRank: 6, MaxDim: 4, MaxElems: 400, Expand: true, Mags: rapid.IntRange(0, 2).Draw(t, "mags") == 0}
 	return C04Case{P: prog.GenSingle(t, op, cfg)}
 }
 
